@@ -266,6 +266,31 @@ struct VectorizedHashTable {
     direct: Option<(i64, i64)>,
 }
 
+/// Probe keys arrive dictionary-encoded when an earlier join gathered a small
+/// string build side as a dictionary (see `gather_column`). The table hashes and
+/// compares plain values, so such keys are decoded first; `None` when there is
+/// nothing to decode.
+fn plain_probe_keys(arrays: &[ArrayRef]) -> Option<Vec<ArrayRef>> {
+    use arrow::datatypes::DataType;
+    if !arrays
+        .iter()
+        .any(|a| matches!(a.data_type(), DataType::Dictionary(_, _)))
+    {
+        return None;
+    }
+    Some(
+        arrays
+            .iter()
+            .map(|a| match a.data_type() {
+                DataType::Dictionary(_, value_type) => {
+                    arrow::compute::cast(a, value_type).unwrap_or_else(|_| a.clone())
+                }
+                _ => a.clone(),
+            })
+            .collect(),
+    )
+}
+
 impl VectorizedHashTable {
     /// Build the vectorized hash table from build-side batches.
     fn build(batches: &[RecordBatch], key_exprs: &[Expr]) -> Result<Self> {
@@ -424,6 +449,8 @@ impl VectorizedHashTable {
         num_rows: usize,
         mut emit: impl FnMut(u32, u32, u32),
     ) -> bool {
+        let decoded = plain_probe_keys(probe_key_arrays);
+        let probe_key_arrays = decoded.as_deref().unwrap_or(probe_key_arrays);
         if let Some((kmin, kmax)) = self.direct {
             if let Some(pa) = probe_key_arrays[0].as_any().downcast_ref::<Int64Array>() {
                 let vals = pa.values();
@@ -483,6 +510,8 @@ impl VectorizedHashTable {
     }
 
     fn probe_batch(&self, probe_key_arrays: &[ArrayRef], num_rows: usize) -> Vec<(u32, u32, u32)> {
+        let decoded = plain_probe_keys(probe_key_arrays);
+        let probe_key_arrays = decoded.as_deref().unwrap_or(probe_key_arrays);
         let mut matches = Vec::new();
 
         // Direct-address probe: bounds check + slot load; chain entries are
@@ -625,6 +654,8 @@ impl VectorizedHashTable {
     /// Probe for Semi/Anti joins: returns a boolean mask per probe row indicating match.
     #[inline]
     fn probe_batch_semi(&self, probe_key_arrays: &[ArrayRef], num_rows: usize) -> Vec<bool> {
+        let decoded = plain_probe_keys(probe_key_arrays);
+        let probe_key_arrays = decoded.as_deref().unwrap_or(probe_key_arrays);
         let mut matched = vec![false; num_rows];
 
         // Direct-address: membership = slot occupancy, no hash/compare.
